@@ -5,14 +5,12 @@ package checks
 import (
 	"context"
 	"fmt"
-	"strings"
 	"sync"
 	"testing"
 	"time"
 
 	"github.com/go-logr/logr"
 	corev1 "k8s.io/api/core/v1"
-	metav1 "k8s.io/apimachinery/pkg/apis/meta/v1"
 	"pgregory.net/rapid"
 
 	edsv1 "github.com/DataDog/extendeddaemonset/api/v1alpha1"
@@ -198,109 +196,6 @@ func TestC17Batches(t *testing.T) {
 			if injected == 0 && (cleanupFalse || recErr) {
 				fail("C17/conditions/failure-reported-without-failure", fmt.Sprintf("no deletion failed but ReconcileError=%v PodsCleanupDone=%v", recErr, cd))
 			}
-		}
-	})
-}
-
-// TestC17Concurrent: the four reconcilers and a kubelet model run as goroutines against one
-// store, with random API failures. The oracle is the race detector (the test binary is built with -race).
-func TestC17Concurrent(t *testing.T) {
-	rec := evid.New("TestC17Concurrent", "C17", "workload: 3-8 nodes, one ExtendedDaemonSet with canary strategy, a setting, template edits and annotation flips while goroutines run the ExtendedDaemonSet, replica-set, setting and PodTemplate reconcilers and a kubelet model concurrently against one store for a bounded number of iterations, a generated fraction of API writes failing; oracle: no race report, no panic; non-trivial = at least two replica sets existed and pod creations happened; distinct by workload parameters")
-	t.Cleanup(func() {
-		if !t.Failed() {
-			rec.Done()
-		}
-	})
-	rapid.Check(t, func(rt *rapid.T) {
-		n := rapid.IntRange(3, 8).Draw(rt, "nodes")
-		failEvery := rapid.SampledFrom([]int{0, 0, 7, 3}).Draw(rt, "failEvery")
-		iters := rapid.IntRange(20, 60).Draw(rt, "iterations")
-		c := sim.New(sim.Options{AffinityMode: rapid.Bool().Draw(rt, "affinity")})
-		c.NoRecord = true
-		for i := 0; i < n; i++ {
-			c.AddNode(fmt.Sprintf("n%d", i), map[string]string{"zone": gen.LabelVals[i%3], "tier": "a"}, nil)
-		}
-		strategy := gen.ConvergentStrategy(rt, gen.StrategyOpts{Canary: 2, NoPercentRepl: true})
-		c.Add(&edsv1.ExtendedDaemonSet{ObjectMeta: metav1.ObjectMeta{Namespace: "ns1", Name: "foo"}, Spec: edsv1.ExtendedDaemonSetSpec{Template: gen.LetterTemplate('A'), Strategy: strategy}})
-		var cnt int
-		var mu sync.Mutex
-		if failEvery > 0 {
-			c.Faults = func(call *sim.Call) sim.FaultKind {
-				if !call.Write {
-					return sim.FaultNone
-				}
-				mu.Lock()
-				defer mu.Unlock()
-				cnt++
-				if cnt%failEvery == 0 {
-					return sim.FaultReject
-				}
-				return sim.FaultNone
-			}
-		}
-		var wg sync.WaitGroup
-		var panics []string
-		worker := func(name string, f func(i int)) {
-			wg.Add(1)
-			go func() {
-				defer wg.Done()
-				defer func() {
-					if p := recover(); p != nil {
-						mu.Lock()
-						panics = append(panics, fmt.Sprintf("%s: %v", name, p))
-						mu.Unlock()
-					}
-				}()
-				for i := 0; i < iters; i++ {
-					f(i)
-				}
-			}()
-		}
-		worker("eds", func(i int) { c.Reconcile(sim.ActorEDS, "ns1", "foo") })
-		worker("ers", func(i int) {
-			for _, rs := range c.AllERS() {
-				c.Reconcile(sim.ActorERS, rs.Namespace, rs.Name)
-			}
-		})
-		worker("ers2", func(i int) {
-			for _, rs := range c.AllERS() {
-				c.Reconcile(sim.ActorERS, rs.Namespace, rs.Name)
-			}
-		})
-		worker("podtemplate", func(i int) { c.Reconcile(sim.ActorPodTemplate, "ns1", "foo") })
-		worker("setting", func(i int) {
-			for _, s := range c.AllSettings() {
-				c.Reconcile(sim.ActorSetting, s.Namespace, s.Name)
-			}
-		})
-		worker("kubelet", func(i int) { c.KubeletProgress(); c.Advance(3 * time.Second) })
-		worker("user", func(i int) {
-			switch i % 10 {
-			case 3:
-				_ = c.EditEDS("ns1", "foo", func(x *edsv1.ExtendedDaemonSet) { x.Spec.Template = gen.LetterTemplate("ABC"[(i/10)%3]) })
-			case 6:
-				_ = c.SetEDSAnnotation("ns1", "foo", oracle.AnnRollingPaused, []string{"true", "false"}[(i/10)%2])
-			case 8:
-				if x := c.EDS("ns1", "foo"); x != nil && x.Status.Canary != nil {
-					_ = c.SetEDSAnnotation("ns1", "foo", oracle.AnnCanaryValid, x.Status.Canary.ReplicaSet)
-				}
-			}
-		})
-		wg.Wait()
-		creates := 0
-		for _, call := range c.Calls {
-			if call.Kind == "Pod" && call.Verb == "create" {
-				creates++
-			}
-		}
-		nt := len(c.AllERS()) >= 2 && creates > 0
-		rec.Case(nt, evid.FP(n, failEvery, iters, c.Opts.AffinityMode, renderStrategy(&strategy)), fmt.Sprintf("failEvery-%d", failEvery))
-		rec.Steps(iters)
-		if nt && rec.WantSample() {
-			rec.Sample(map[string]interface{}{"nodes": n, "iterations": iters, "failEvery": failEvery, "podCreates": creates, "apiCalls": len(c.Calls)})
-		}
-		if len(panics) > 0 {
-			settle(rt, rec, []mon.V{{Property: "C17", Monitor: "no-panic", Sig: "C17/concurrent/panic", Detail: strings.Join(panics, "\n")}}, nil, 1, "")
 		}
 	})
 }
